@@ -60,6 +60,7 @@ pub open spec fn s_c3(q: Pt, m: Seq<u8>) -> Seq<u8> { sm3_spec(be_bytes(pt_x(q),
 pub open spec fn c1_len(compressed: bool) -> int { if compressed { 33 } else { 65 } }
 //@section code gm-sm2/src/u256.rs
 type U256 = [u64; 4];
+const SM2_ZERO: U256 = [0, 0, 0, 0];
 const SM2_ONE: U256 = [1, 0, 0, 0];
 //@stub sm2_limbs u256_add
 //@stub sm2_limbs u256_cmp
@@ -134,9 +135,9 @@ const DEFAULT_ID: &'static str = "1234567812345678";
 //@stub sm2_util kdf
 //@stub sm2_util xor_bytes
 //@section spec local
-proof fn lemma_key_consts() ensures val4(SM2_N@) == N(), val4(SM2_N_MINUS_TWO@) == N() - 2, val4(SM2_ONE@) == 1
+proof fn lemma_key_consts() ensures val4(SM2_N@) == N(), val4(SM2_N_MINUS_TWO@) == N() - 2, val4(SM2_ONE@) == 1, val4(SM2_ZERO@) == 0
 {
-    assert(val4(SM2_N@) == N() && val4(SM2_N_MINUS_TWO@) == N() - 2 && val4(SM2_ONE@) == 1) by(compute);
+    assert(val4(SM2_N@) == N() && val4(SM2_N_MINUS_TWO@) == N() - 2 && val4(SM2_ONE@) == 1 && val4(SM2_ZERO@) == 0) by(compute);
 }
 //@section spec
 spec fn ct_c2(ct: Seq<u8>, compressed: bool, model: Sm2Model) -> Seq<u8> {
@@ -277,8 +278,6 @@ impl Sm2PublicKey {
     fn verify(&self, id: Option<&'static str>, msg: &[u8], sig: &[u8]) -> (res: Sm2Result<()>)
         requires pk_ok(*self), msg@.len() < 0x1000_0000_0000_0000,
             id is Some ==> str_bytes(id->Some_0).len() < 0x1000_0000_0000_0000, str_bytes(DEFAULT_ID).len() < 0x1000_0000_0000_0000,
-            // known finding D34 (no witness computable): e + x1 can exceed 2^256 + n - 1 and is then reduced wrongly
-            s_e(s_id(id), abs(self.point), msg@) < r256() + N() - P(), //@carveout D34
         ensures res is Ok ==> sig@.len() == 64 && 8 * s_id(id).len() <= 65535
             && valid_sig(abs(self.point), s_e(s_id(id), abs(self.point), msg@),
                          be_val(sig@.subrange(0, 32)), be_val(sig@.subrange(32, 64))),
@@ -294,7 +293,6 @@ impl Sm2PublicKey {
 //@props C03 C04
     fn verify_raw(&self, digest: &[u8], pk: &Point, sig: &[u8]) -> (res: Sm2Result<()>)
         requires valid(*pk), val4(pk.z@) != 0,
-            digest@.len() == 32 ==> be_val(digest@) < r256() + N() - P(), //@carveout D34
         ensures res is Ok ==> sig@.len() == 64 && digest@.len() == 32
             && valid_sig(abs(*pk), be_val(digest@), be_val(sig@.subrange(0, 32)), be_val(sig@.subrange(32, 64))),
     {
@@ -340,8 +338,9 @@ impl Sm2PublicKey {
         }
         let x1 = u256_from_be_bytes(&fp_from_mont(&p.x).to_byte_be());
         let e = u256_from_be_bytes(&digest);
-        let r1 = fn_add(&x1, &e);
+        let r1 = fn_add(&fn_add(&x1, &SM2_ZERO), &fn_add(&e, &SM2_ZERO));
         proof {
+            lemma_add_mod_noop(val4(x1@), val4(e@), N());
             if val4(r@) == val4(r1@) { lemma_small_mod(val4(r1@) as nat, N() as nat); }
             assert(val4(x1@) == pt_x(q));
             assert(val4(t@) == (val4(r@) + val4(s@)) % N());
@@ -383,8 +382,6 @@ impl Sm2PrivateKey {
     fn sign(&self, id: Option<&'static str>, msg: &[u8]) -> (res: Sm2Result<Vec<u8>>)
         requires sk_ok(*self), msg@.len() < 0x1000_0000_0000_0000,
             id is Some ==> str_bytes(id->Some_0).len() < 0x1000_0000_0000_0000, str_bytes(DEFAULT_ID).len() < 0x1000_0000_0000_0000,
-            // known finding D34 (no witness computable): e + x1 >= 2n is reduced only once, r would not be canonical
-            s_e(s_id(id), abs(self.public_key.point), msg@) < 2 * N() - P(), //@carveout D34
         ensures
             res is Ok <==> 8 * s_id(id).len() <= 65535,
             res is Ok ==> res->Ok_0@.len() == 64 && (exists|k: Seq<u64>| #[trigger] csprng(k) && sig_from_nonce(val4(k), val4(self.d@),
@@ -403,7 +400,6 @@ impl Sm2PrivateKey {
     #[verifier::exec_allows_no_decreases_clause]
     fn sign_raw(&self, digest: &[u8], sk: &U256) -> (res: Sm2Result<Vec<u8>>)
         requires 1 <= val4(sk@) <= N() - 2,
-            digest@.len() == 32 ==> be_val(digest@) < 2 * N() - P(), //@carveout D34
         ensures res is Ok <==> digest@.len() == 32,
             res is Ok ==> res->Ok_0@.len() == 64 && (exists|k: Seq<u64>| #[trigger] csprng(k) && sig_from_nonce(val4(k), val4(sk@), be_val(digest@),
                 be_val(res->Ok_0@.subrange(0, 32)), be_val(res->Ok_0@.subrange(32, 64)))),
@@ -416,7 +412,7 @@ impl Sm2PrivateKey {
         let n = &SM2_N;
         let s1 = fn_pow(&u256_add(&SM2_ONE, &sk).0, &SM2_N_MINUS_TWO);
         loop
-            invariant digest@.len() == 32, val4(e@) == be_val(digest@), val4(e@) < 2 * N() - P(), n@ == SM2_N@, 1 <= val4(sk@) <= N() - 2,
+            invariant digest@.len() == 32, val4(e@) == be_val(digest@), n@ == SM2_N@, 1 <= val4(sk@) <= N() - 2,
                 val4(s1@) == inv_n(1 + val4(sk@)),
         {
             let k = random_u256();
@@ -428,8 +424,9 @@ impl Sm2PrivateKey {
                 assert(b.subrange(0, 32) =~= b);
             }
             let x1 = u256_from_be_bytes(&fp_from_mont(&p_x.x).to_byte_be());
-            let r = fn_add(&e, &x1);
+            let r = fn_add(&fn_add(&e, &SM2_ZERO), &fn_add(&x1, &SM2_ZERO));
             proof {
+                lemma_add_mod_noop(val4(e@), val4(x1@), N());
                 assert forall|a: Seq<u64>| a.len() == 4 && #[trigger] val4(a) == N() implies a =~= SM2_N@ by { lemma_val4_inj(a, SM2_N@); }
             }
             if r.is_zero() || shim_u256_eq(&u256_add(&r, &k).0, n) {
